@@ -28,6 +28,7 @@ fn monotone(ctx: &Ctx, maxlen: usize) -> (u64, u64) {
         ("(1.2,3,20,3)", SetSketchParams::new(1.2, 3, 20., 3)),
         ("(1.2,64,20,400)", SetSketchParams::new(1.2, 64, 20., 400)),
         // extreme rates a: registers saturate at q+1 after a few items / stay at 0 for a long time
+        ("(2,8,2^62,63)", SetSketchParams::new(2.0, 8, 2f64.powi(62), 63)),
         ("(2,8,2^52,63)", SetSketchParams::new(2.0, 8, 2f64.powi(52), 63)),
         ("(2,4,2^44,62)", SetSketchParams::new(2.0, 4, 2f64.powi(44), 62)),
         ("(1.2,8,1e14,200)", SetSketchParams::new(1.2, 8, 1e14, 200)),
@@ -495,7 +496,7 @@ pub fn run(ctx: &Ctx) -> i32 {
         "evaluations": streams + par.real_runs + sets + entry_runs,
         "distinct_nontrivial": par.distinct_sums + details.len() as u64,
         "entry_points": {"runs": entry_runs, "distinct_estimates": entry_distinct, "what": "all ordered selections of 1..3 items from 8 items (hashes 0, 1, 2^64-1, 2^64-2, 2^63, 2^32, 2^32-1, 12345 through the no-op hasher; the same integers through Fnv), 2 parameter sets: the estimate and registers are the same item by item, as one slice, as two slices, as items then a slice and as a slice then items; a singleton is estimated between 0.4 and 2.5"},
-        "rule": "monotone: every stream of length 5 (6) over {6 items, a burst of 12 items, merges with two different fixed sketches} for 9 parameter sets (4 of them with extreme rates a: registers saturating at q+1 or staying at 0), estimate non-decreasing after every step (exact) and equal to the parallel estimator on the same registers up to rounding; parallel estimator: for m<=9 (11) and 3 bases, ALL Catalan(m-1) bracketings of the sum of the m register terms are enumerated (the reduction orders a rayon pool can realise), every one must agree with the sequential estimate within (m+32)*2^-52 relative, and the real get_cardinal_estimate run under pools of 1,2,3,4,8,16 threads must be a member of the modelled outcome set (trace validation); accuracy: n in {1,2,10,1e3,1e5,(1e6)} x m in {64,256,(1024,4096)} x 3 (b,q) x u16/u32 x with/without repetition, T disjoint sets each (T>=36m where the item budget allows): |mean(n^/n)-1| <= 2 rsd^2 + 6 se, |sd/rsd-1| <= 0.15 + 6 se, confirmed on a 4x larger fresh block; distinct = distinct bracketing sums + configurations",
+        "rule": "monotone: every stream of length 5 (6) over {6 items, a burst of 12 items, merges with two different fixed sketches} for 10 parameter sets (5 of them with extreme rates a: registers saturating at q+1 or staying at 0), estimate non-decreasing after every step (exact) and equal to the parallel estimator on the same registers up to rounding; parallel estimator: for m<=9 (11) and 3 bases, ALL Catalan(m-1) bracketings of the sum of the m register terms are enumerated (the reduction orders a rayon pool can realise), every one must agree with the sequential estimate within (m+32)*2^-52 relative, and the real get_cardinal_estimate run under pools of 1,2,3,4,8,16 threads must be a member of the modelled outcome set (trace validation); accuracy: n in {1,2,10,1e3,1e5,(1e6)} x m in {64,256,(1024,4096)} x 3 (b,q) x u16/u32 x with/without repetition, T disjoint sets each (T>=36m where the item budget allows): |mean(n^/n)-1| <= 2 rsd^2 + 6 se, |sd/rsd-1| <= 0.15 + 6 se, confirmed on a 4x larger fresh block; distinct = distinct bracketing sums + configurations",
         "samples": [
             {"monotone_stream": [0, 6, 3, 7, 3], "meaning": "item 1, burst, item 4, merge, item 4"},
             {"bracketings": {"m": 4, "terms": "b^-k_i of the 4 registers", "trees": 5}},
